@@ -284,6 +284,16 @@ class Rec(Stream):
         return []
 
 
+class Awaitable:
+    """an awaitable that is neither a coroutine nor a Future (what many client libraries return)"""
+
+    def __init__(self, fut):
+        self.fut = fut
+
+    def __await__(self):
+        return self.fut.__await__()
+
+
 class Consumer:
     """User sink function.  mode: 'sync' | 'fut' (returns a Tornado/asyncio Future) |
     'coro' (native coroutine awaiting a harness future).  The harness finishes invocations."""
@@ -312,14 +322,14 @@ class Consumer:
         if self.mode == "coro":
             return self._coro(inv, x)
         self.log.add("cs", self.cid, inv, x, self.log.now(), getattr(self.log, "ctx", None))
-        if inv in self.fail_at and self.mode == "fut" and self.late_failure:
+        if inv in self.fail_at and self.mode in ("fut", "aw") and self.late_failure:
             # the returned future fails later, when the harness "finishes" the invocation
             fut = asyncio.get_event_loop().create_future()
             self.pending.append((inv, fut))
             self.failing.add(inv)
             if self.auto:
                 self.finish(len(self.pending) - 1)
-            return fut
+            return Awaitable(fut) if self.mode == "aw" else fut
         if inv in self.fail_at:
             ex = boom(("c", self.cid, inv))
             self.log.add("cx", self.cid, inv, ex)
@@ -329,7 +339,7 @@ class Consumer:
             return None
         fut = asyncio.get_event_loop().create_future()
         self.pending.append((inv, fut))
-        return fut
+        return Awaitable(fut) if self.mode == "aw" else fut
 
     async def _coro(self, inv, x):
         self.log.add("cs", self.cid, inv, x, self.log.now(), getattr(self.log, "ctx", None))
